@@ -192,6 +192,17 @@ func sharedOp(s *jsonapi.Schema, op string, p int) {
 		if d, err := jsonapi.UnmarshalDocument([]byte(bad), s); err == nil || d != nil {
 			panic("a collection with refused members was accepted")
 		}
+		// the document that was read is sent back with a self link of its own; the next document read
+		// starts empty
+		if u, err := jsonapi.NewURLFromRaw(s, "/t1?filter=echo-"+id); err == nil {
+			_, err = jsonapi.MarshalDocument(doc, u)
+			must(err)
+			next, err := jsonapi.UnmarshalDocument([]byte(`{"data":null}`), s)
+			must(err)
+			if len(next.Links) != 0 || len(next.Meta) != 0 || len(next.RelData) != 0 {
+				panic("a document just read already carries links, meta or relationship data of another one")
+			}
+		}
 		first := doc.Data.(jsonapi.Collection).At(0)
 		if mh, ok := first.(jsonapi.MetaHolder); !ok || len(mh.Meta()) != 1 || mh.Meta()["owner"] != id ||
 			first.Get("id") != id || first.Get("a") != "x" {
@@ -209,6 +220,17 @@ func sharedOp(s *jsonapi.Schema, op string, p int) {
 		r4, err := jsonapi.UnmarshalResource([]byte(pl), s)
 		must(err)
 		_ = r4.Get("d")
+		// a body that names every attribute of its type, read partially; what comes back is the
+		// request's own and may be cut down by it
+		p4, err := jsonapi.UnmarshalPartialResource([]byte(pl), s)
+		must(err)
+		if p4.Get("d") != "v" {
+			panic("partial value lost")
+		}
+		p4.RemoveField("d")
+		if len(s.GetType("t4").Attrs) != 1 {
+			panic("cutting down a partial resource reached the schema")
+		}
 	case "NewResource":
 		for _, name := range []string{"t1", "t2", "t3", "t4", "t5", "t7"} {
 			typ := s.GetType(name)
